@@ -121,6 +121,24 @@ use super::*;
 //@item-pub compact | const | U32_OUT_OF_RANGE
 //@item-pub compact | const | U64_OUT_OF_RANGE
 //@item-pub compact | const | U128_OUT_OF_RANGE
+impl vstd::std_specs::convert::FromSpecImpl<Compact<u8>> for u8 {
+    open spec fn obeys_from_spec() -> bool { true }
+    open spec fn from_spec(x: Compact<u8>) -> u8 { x.0 }
+}
+impl From<Compact<u8>> for u8 {
+    //@fn compact.from.u8 :: compact | impl From<Compact<u8>>for u8 | from
+    //@ ret r
+    //@+ ensures r == x.0,
+}
+impl vstd::std_specs::convert::FromSpecImpl<Compact<u16>> for u16 {
+    open spec fn obeys_from_spec() -> bool { true }
+    open spec fn from_spec(x: Compact<u16>) -> u16 { x.0 }
+}
+impl From<Compact<u16>> for u16 {
+    //@fn compact.from.u16 :: compact | impl From<Compact<u16>>for u16 | from
+    //@ ret r
+    //@+ ensures r == x.0,
+}
 impl vstd::std_specs::convert::FromSpecImpl<Compact<u32>> for u32 {
     open spec fn obeys_from_spec() -> bool { true }
     open spec fn from_spec(x: Compact<u32>) -> u32 { x.0 }
@@ -129,6 +147,33 @@ impl From<Compact<u32>> for u32 {
     //@fn compact.from.u32 :: compact | impl From<Compact<u32>>for u32 | from
     //@ ret r
     //@+ ensures r == x.0,
+}
+impl vstd::std_specs::convert::FromSpecImpl<Compact<u64>> for u64 {
+    open spec fn obeys_from_spec() -> bool { true }
+    open spec fn from_spec(x: Compact<u64>) -> u64 { x.0 }
+}
+impl From<Compact<u64>> for u64 {
+    //@fn compact.from.u64 :: compact | impl From<Compact<u64>>for u64 | from
+    //@ ret r
+    //@+ ensures r == x.0,
+}
+impl vstd::std_specs::convert::FromSpecImpl<Compact<u128>> for u128 {
+    open spec fn obeys_from_spec() -> bool { true }
+    open spec fn from_spec(x: Compact<u128>) -> u128 { x.0 }
+}
+impl From<Compact<u128>> for u128 {
+    //@fn compact.from.u128 :: compact | impl From<Compact<u128>>for u128 | from
+    //@ ret r
+    //@+ ensures r == x.0,
+}
+impl<'a, T> vstd::std_specs::convert::FromSpecImpl<&'a T> for CompactRef<'a, T> {
+    open spec fn obeys_from_spec() -> bool { true }
+    open spec fn from_spec(x: &'a T) -> CompactRef<'a, T> { CompactRef(x) }
+}
+impl<'a, T> From<&'a T> for CompactRef<'a, T> {
+    //@fn compact.ref.from :: compact | impl<'a,T>From<&'a T>for CompactRef<'a,T> | from
+    //@ ret r
+    //@+ ensures r == CompactRef(x),
 }
 } // mod compact_types
 pub use compact_types::*;
@@ -376,6 +421,7 @@ pub proof fn mode0(b: Seq<u8>)
     requires b.len() >= 1, b[0] % 4 == 0
     ensures compact((b[0] / 4) as nat) == seq![b[0]], compact_dec(b) == Some(((b[0] / 4) as nat, 1nat))
 {
+    reveal(compact_dec);
     let p = b[0];
     assert(4 * ((p / 4) as nat) == p as nat);
     assert(compact((p / 4) as nat) =~= seq![p]);
@@ -392,6 +438,7 @@ pub proof fn mode1(b: Seq<u8>)
         &&& (v / 4 < 64 ==> compact_dec(b) is None)
     })
 {
+    reveal(compact_dec);
     let v = from_le(b.take(2));
     pow256_values();
     le_from_le(b.take(2));
@@ -413,6 +460,7 @@ pub proof fn mode2(b: Seq<u8>)
         &&& (v / 4 < 16384 ==> compact_dec(b) is None)
     })
 {
+    reveal(compact_dec);
     let v = from_le(b.take(4));
     pow256_values();
     le_from_le(b.take(4));
@@ -436,6 +484,7 @@ pub proof fn mode3(b: Seq<u8>)
         &&& (!(x >= 1073741824 && x >= pow256((k - 1) as nat)) ==> compact_dec(b) is None)
     })
 {
+    reveal(compact_dec);
     let k = (b[0] / 4) as nat + 4;
     let body = b.subrange(1, 1 + k as int);
     let x = from_le(body);
@@ -447,10 +496,21 @@ pub proof fn mode3(b: Seq<u8>)
     }
 }
 
+pub proof fn short(b: Seq<u8>)
+    ensures
+        b.len() == 0 ==> compact_dec(b) is None,
+        b.len() >= 1 && b[0] % 4 == 1 && b.len() < 2 ==> compact_dec(b) is None,
+        b.len() >= 1 && b[0] % 4 == 2 && b.len() < 4 ==> compact_dec(b) is None,
+        b.len() >= 1 && b[0] % 4 == 3 && b.len() < 1 + (b[0] / 4) as nat + 4 ==> compact_dec(b) is None,
+{
+    reveal(compact_dec);
+}
+
 pub proof fn too_wide(b: Seq<u8>, w: nat)
     requires b.len() >= 1, b[0] % 4 == 3, (b[0] / 4) as nat + 4 > w
     ensures compact_accepts(b, w) is None
 {
+    reveal(compact_dec);
     let k = (b[0] / 4) as nat + 4;
     pow256_mono(w, (k - 1) as nat);
 }
@@ -458,7 +518,8 @@ pub proof fn too_wide(b: Seq<u8>, w: nat)
 pub proof fn narrow_ok(b: Seq<u8>, w: nat, x: nat, n: nat)
     requires compact_dec(b) == Some((x, n)), x < pow256(w)
     ensures compact_accepts(b, w) == Some(n)
-{}
+{
+    reveal(compact_dec);}
 
 } // mod compact_dec_lemmas
 
@@ -541,6 +602,7 @@ $SUB32    //@ at start
     //@+ proof {
     //@+     broadcast use sl::concat_take;
     //@+     le_lemmas::pow256_values();
+    //@+     compact_dec_lemmas::short(b0);
     //@+     if b0.len() >= 1 {
     //@+         assert(b0 =~= seq![b0[0]] + b0.skip(1));
     //@+         if b0[0] % 4 == 0 { compact_dec_lemmas::mode0(b0); }
@@ -569,7 +631,7 @@ impl Decode for Compact<$T> {
     open spec fn accepts(b: Seq<u8>) -> Option<nat> { compact_accepts(b, $N) }
     open spec fn dec_bytes(v: &Self) -> Seq<u8> { compact(v.0 as nat) }
     open spec fn need_depth(b: Seq<u8>) -> nat { 0 }
-    proof fn law_bound(b: Seq<u8>) {}
+    proof fn law_bound(b: Seq<u8>) { reveal(compact_dec); }
     //@fn compact.$T.decode :: compact | impl Decode for Compact<$T> | decode
     //@ ret r
     //@+ ensures r matches Ok(v) ==> compact_dec(old(input).bytes()) == Some((v.0 as nat, compact(v.0 as nat).len())),
@@ -648,8 +710,9 @@ impl Decode for Compact<$T> {
     open spec fn accepts(b: Seq<u8>) -> Option<nat> { compact_accepts(b, $N) }
     open spec fn dec_bytes(v: &Self) -> Seq<u8> { compact(v.0 as nat) }
     open spec fn need_depth(b: Seq<u8>) -> nat { 0 }
-    proof fn law_bound(b: Seq<u8>) {}
+    proof fn law_bound(b: Seq<u8>) { reveal(compact_dec); }
     #[verifier::rlimit(300)]
+    #[verifier::spinoff_prover]
     //@fn compact.$T.decode :: compact | impl Decode for Compact<$T> | decode
     //@ ret r
     //@+ ensures r matches Ok(v) ==> compact_dec(old(input).bytes()) == Some((v.0 as nat, compact(v.0 as nat).len())),
@@ -677,6 +740,7 @@ $ARMS    //@ at before `let mut res = 0;`
     //@+     input.frame() == old(input).frame(),
     //@+     b0 == old(input).bytes(),
     //@+     b0.len() >= 1 && b0[0] % 4 == 3,
+    //@+     b0.len() < 1 + bytes_needed ==> compact_dec(b0) is None,
     //@ at after `res |= $T::from(input.read_byte()?) << (i * 8);`
     //@+ proof { assert(res == r0_ | ((b0[1 + i as int] as $T) << ((i * 8) as $T))); }
     //@ at before `res |= $T::from(input.read_byte()?) << (i * 8);`
